@@ -531,26 +531,20 @@ def _opindex(E, a, kw, fr, node):
     raise PyRaise("TypeError", _line(node))
 
 
-@external("itertools.accumulate", "prefix sums of an int list")
+@external("itertools.accumulate", "yields the running sums xs[0], xs[0]+xs[1], ... of an int list")
 def _accumulate(E, a, kw, fr, node):
     sv = E.list_sv(a[0], TInt)
     if sv.ty != TList(TInt):
         raise Unsupported("accumulate of %r" % (sv.ty,))
-    acc = SV(psums()(sv.t), TList(TInt))
+    acc = E.fresh("accumulate", TList(TInt))
     E.assume(z3.Length(acc.t) == z3.Length(sv.t))
-    return E.alloc(("iter", (acc, z3.IntVal(0))))
+    ps = psum_upto()
+    # element k is the sum of the first k+1 inputs: stated as a ground fact whenever element k is read
+    return E.alloc(("iter", (acc, z3.IntVal(0), lambda k: [acc.t[k] == ps(sv.t, k + 1)])))
 
 
-def psums():
-    """psums(xs)[k] = xs[0] + ... + xs[k]   (spec function registered on first use)"""
-    from .registry import specfn, SPEC
-    if "psums" not in SPEC:
-        f = specfn("psums", [TList(TInt)], TList(TInt),
-                   py=lambda xs: [sum(xs[:k + 1]) for k in range(len(xs))])
-        ILS = sort(TList(TInt))
-        f.define = lambda xs: z3.If(z3.Length(xs) == 0, z3.Empty(ILS),
-                                    z3.Concat(f(z3.Extract(xs, 0, z3.Length(xs) - 1)), z3.Unit(L.isum(xs))))
-    return SPEC["psums"]
+def psum_upto():
+    return L.psum_upto
 
 
 @external("os.urandom", "A1: fresh random bytes of the requested length")
